@@ -939,14 +939,22 @@ class MoveFieldView(Table):
             hdr = next(it)
         except StopIteration:
             hdr = []
-        outhdr = [f for f in hdr if f != self.field]
-        outhdr.insert(self.index, self.field)
+        # N.B., work with positions, field names need not be unique: only
+        # the (first) field selected moves, all others stay
+        hdr = list(hdr)
+        if self.field in hdr:
+            fidx = hdr.index(self.field)
+            indices = [i for i in range(len(hdr)) if i != fidx]
+            indices.insert(self.index, fidx)
+            outhdr = [hdr[i] for i in indices]
+        else:
+            outhdr = [f for f in hdr if f != self.field]
+            outhdr.insert(self.index, self.field)
+            indices = asindices(hdr, list(map(str, outhdr)))
         yield tuple(outhdr)
 
         # define a function to transform each row in the source data
         # according to the field selection
-        outflds = list(map(str, outhdr))
-        indices = asindices(hdr, outflds)
         transform = rowgetter(*indices)
 
         # construct the transformed data
